@@ -15,7 +15,7 @@ fn c(comp: Comp) -> Item {
 pub fn l1_components(cfg: Config) -> Vec<Comp> {
     let mut out = Vec::new();
     let names: &[&'static str] = &["salt", "olive oil", "ñu", "tipo 00 flour", "5peppers"];
-    let mut vals = vec![Val::Int(3), Val::Dec("1.5"), Val::Dec("0.25"), Val::Dec("0.05"), Val::Frac(1, 2), Val::Mixed(1, 1, 2), Val::Text("a few"), Val::Text("2 heaped")];
+    let mut vals = vec![Val::Int(3), Val::Dec("1.5"), Val::Dec("0.25"), Val::Dec("0.05"), Val::Frac(1, 2), Val::Mixed(1, 1, 2), Val::Text("a few"), Val::Text("2 heaped"), Val::Text("1 1/2 heaped")];
     if cfg.extended {
         vals.push(Val::Range(Box::new(Val::Int(2)), Box::new(Val::Int(3))));
         vals.push(Val::Range(Box::new(Val::Dec("1.5")), Box::new(Val::Mixed(2, 1, 2))));
